@@ -2451,8 +2451,21 @@ impl<'a, E: quiver_core::effects::Effect> Compiler<'a, E> {
             });
             last_prov = chain_prov.clone();
 
-            // Thread this chain's result into the next chain.
-            threaded = Some((chain_type, chain_prov));
+            // Thread this chain's result into the next chain. A chain that ends in a match
+            // yields the match's verdict (`Ok`/`[]`), not the matched value: the provenance
+            // reported for it (kept in `last_prov` for the `=>` forward narrowing) describes the
+            // matched value, so it must not travel with the verdict - a match in the next step
+            // would otherwise narrow the matched value by the verdict's type.
+            let ends_in_match = chain.match_pattern.is_some()
+                || matches!(chain.terms.last(), Some(ast::Term::Match(_)));
+            threaded = Some((
+                chain_type,
+                if ends_in_match {
+                    Provenance::Unknown
+                } else {
+                    chain_prov
+                },
+            ));
 
             // If last_type is NIL, subsequent chains are unreachable - break early
             if let Some(last_type_id) = last_type
